@@ -4,6 +4,7 @@ import WellenModel.Proofs.Mt
 import WellenModel.Props.C04
 import WellenModel.Props.C01
 import WellenModel.Proofs.SplitFree
+import WellenModel.Proofs.Handover
 /-!
 # C03 — multi-threaded VCD loading equals single-threaded loading
 
@@ -14,6 +15,9 @@ trusted) and appended sequentially. What is proved here:
   size beginning with 0, and together they cover the body;
 * `C03_chunk_events_prefix`: a chunk (stop position set) emits a prefix of the events the unbounded
   parser emits from the same start — the hand-over exit only ever cuts the stream at a timestamp;
+* `C03_worker_reproduces_segment`: a worker that resynchronised at a line where the whole-body parser is in the same lexical
+  state emits a prefix of what the whole-body parser emits from there — it never invents, reorders or alters an event
+  (`Proofs/Handover.lean`: the parser without stop position ignores positions and earlier events, `step_lift`);
 * `C03_append_table`: appending encoders concatenates their time tables (no entry lost or invented).
 * `C03_mt_load_is_store_run`: a multi-threaded load that succeeds IS the store run with one encoder per chunk
   (`Spec.runSegs`) on the operations each chunk's events denote; with `C04_store_refines_spec_all` the loaded signals are
@@ -114,6 +118,21 @@ theorem run_stop_prefix (s : Nat) (bs : List Nat) : ∀ (m : M),
 theorem C03_chunk_events_prefix (s : Nat) (bs : List Nat) (nl : Bool) :
     evsOf (parseBody (some s) bs nl) <+: evsOf (parseBody none bs nl) :=
   run_stop_prefix s bs (initM nl)
+
+/-- **a worker reproduces a segment of the whole parse**: let the parser of the whole body (no stop position) stand, after
+the events `E`, at the beginning of a line in the state `lift E k c` — `c` being the state of a worker that has just
+resynchronised at that line (same lexical state, no events yet, its own position count). Then the worker's events are a
+prefix of the events the whole parser emits from there on: a worker never invents, reorders or alters an event, it only
+stops early (at its hand-over timestamp) -/
+theorem C03_worker_reproduces_segment (E : List Ev) (k s : Nat) (c : M) (rest : List Nat) :
+    ∃ more, evsOf (run none (lift E k c) rest) = E.reverse ++ evsOf (run (some s) c rest) ++ more := by
+  rw [run_lift]
+  obtain ⟨more, hm⟩ := run_stop_prefix s rest c
+  refine ⟨more, ?_⟩
+  cases hr : run none c rest with
+  | ok e => rw [hr] at hm; simp only [liftOut, evsOf] at hm ⊢; rw [← hm]; simp
+  | err e => rw [hr] at hm; simp only [liftOut, evsOf] at hm ⊢; rw [← hm]; simp
+
 
 /-- appending concatenates the time tables of two finished encoders -/
 theorem C03_append_table (c : Codec) (a b e : Enc) (ha : Inv a) (hb : Inv b)
